@@ -8,6 +8,7 @@ CONSTANTS
   BugDtorOneSided = FALSE
   BugMoveNoReset = FALSE
   BugListMoveCtor = FALSE
+  WithIter = FALSE
 VIEW RView
 INVARIANTS Refines
 CHECK_DEADLOCK FALSE
